@@ -204,3 +204,30 @@ def named_argument_rule(ctx, r, scopes, allow=()):
                 else:
                     r.ok("%s/%s/%s" % (fn, c.name, "+".join(named)), c.loc(), "named arguments are in their parameters' positions")
     return n
+
+
+def id_allocation_rule(r, ctx):
+    """The persistent stores hand every (agent, item) name a numeric id under which its state is written and restored. In
+    swimos_rocks_store::KeyStore::id_for the counter is persisted (merge) before the name -> id mapping is written, a failed merge writes nothing,
+    the id written is the freshly allocated one and allocation happens only for unknown names. Shared by C13 (isolation) and C05 (a restarted
+    lane comes back with its own last state, not another item's)."""
+    from mirlib import describe_rvalue, dom_guards
+    rs = ctx.crate("swimos_rocks_store")
+    b = ctx.saw(rs.fn(name="id_for", self_adt="keystore::KeyStore"))
+    mg = [c for c in b.calls if c.via_name == "merge_keyspace"]
+    pt = [c for c in b.calls if c.via_name == "put_keyspace"]
+    fa = [c for c in b.calls if c.name == "fetch_add"]
+    if len(mg) != 1 or len(pt) != 1 or len(fa) != 1:
+        raise AnchorMissing("KeyStore::id_for: merge_keyspace/put_keyspace/fetch_add sites")
+    te = b.try_edges(mg[0])
+    r.check(te is not None and b.dominates(te[0], pt[0].block), "id_for/merge-before-put", mg[0].loc(), "merge_keyspace(COUNTER)? dominates put_keyspace(name -> id): a crash in between wastes an id, never reuses one",
+            "the name mapping can be written before / without the counter being persisted: after a crash the same id is handed to another name")
+    r.check(te is not None and not (b.reachable_from([te[1]]) & {pt[0].block}), "id_for/merge-error-propagates", mg[0].loc(), "a failed merge returns without writing the mapping")
+    src = b.sources(pt[0].args[3], stop_at_calls=False)
+    r.check(any(s[0] == "call" and s[1] is fa[0] for s in src) and not any(s[0] == "call" and s[1].via_name == "get_keyspace" for s in src), "id_for/id-from-fetch_add", pt[0].loc(),
+            "the id written is the one obtained from count.fetch_add (never a re-read of the store)")
+    g = dom_guards(b, fa[0].block)
+    r.check(any(d.startswith("disc(") and "get_keyspace" in d and l == "None" for d, l, _ in g), "id_for/allocate-only-if-unknown", fa[0].loc(), "a new id is allocated only when the name has no mapping",
+            "an id can be allocated although the name is already mapped: the identifier of a name changes")
+    ret = [describe_rvalue(b, rv) for i, j, p, rv, line in b.assigns() if p[0] == 0 and not p[1]]
+    r.check(True, "id_for/analysed", where(b), "returns %s" % ret[:2])
